@@ -8,6 +8,9 @@ use std::sync::atomic::{AtomicBool, AtomicU64, Ordering::SeqCst};
 use std::sync::{Arc, Mutex};
 use std::time::{Duration, Instant};
 
+/// how far into a response the scripted write fragmentation is applied
+pub const FRAG_SPAN: usize = 256 * 1024;
+
 #[derive(Clone, Debug)]
 pub struct Req {
     pub conn: u64,
@@ -272,7 +275,8 @@ impl Server {
                 let mut off = 0usize;
                 let mut i = 0usize;
                 while off < plan.body.len() {
-                    let k = if plan.frags.is_empty() { plan.body.len() } else { plan.frags[i % plan.frags.len()].max(1) }.min(plan.body.len() - off);
+                    // the scripted fragmentation applies to the first FRAG_SPAN octets; the rest of a large body goes out in 64 KiB pieces
+                    let k = if plan.frags.is_empty() { plan.body.len() } else if off < FRAG_SPAN { plan.frags[i % plan.frags.len()].max(1) } else { 65_536 }.min(plan.body.len() - off);
                     i += 1;
                     wire.extend_from_slice(format!("{k:x}\r\n").as_bytes());
                     if let Some((so, _)) = plan.stall_at {
@@ -318,8 +322,10 @@ impl Server {
                 piece.max(1).min(wire.len() - pos)
             } else if plan.frags.is_empty() {
                 wire.len() - pos
-            } else {
+            } else if pos < FRAG_SPAN {
                 plan.frags[i % plan.frags.len()].max(1).min(wire.len() - pos)
+            } else {
+                65_536.min(wire.len() - pos)
             };
             i += 1;
             if let Some(p) = pause_wire_off {
